@@ -809,7 +809,7 @@ fn gen_case(w: &mut dyn Write, rng: &mut Rng, name: &str, prop: &str, long: bool
     let listeners = lst.split(',').count();
     writeln!(w, "case {name} workers={workers} limit={limit} listeners={lst}").unwrap();
     let faults = prop == "C08";
-    let cmds = matches!(prop, "C05" | "C01" | "C08") && rng.chance(2, 3);
+    let cmds = (matches!(prop, "C05" | "C01" | "C08") && rng.chance(2, 3)) || (prop == "C03" && rng.chance(1, 3));
     let inject = prop == "C05";
     let mut g = Gen { rng, workers, listeners, wids: workers, faults, cmds, inject };
     let n = if long { g.rng.range(20, 80) } else { g.rng.range(5, 40) };
